@@ -190,8 +190,9 @@ def build_worklist(ws):
         import os
         import tempfile
 
-        base = "/dev/shm" if os.path.isdir("/dev/shm") and os.access("/dev/shm", os.W_OK) else tempfile.gettempdir()
-        kw["filepath"] = os.path.join(base, f"rtmc-ctx-{os.getpid()}-{ws['file']}.gwl")
+        from .engine import run_tmp
+
+        kw["filepath"] = os.path.join(run_tmp(), f"ctx-{os.getpid()}-{ws['file']}.gwl")
     return cls(**kw)
 
 
